@@ -14,6 +14,12 @@ macro_rules
       (simp only [Stream.step] at $h:ident)
       (repeat' split at $h:ident)
       all_goals (try (simp at $h:ident; done))
+      -- branches of the model that exist only for code violating a discipline tie (`Close` not cancelling /
+      -- not waiting, a context that ends by itself): impossible under `Code.Sound`
+      all_goals (try (exfalso; first
+        | (refine absurd (Stream.Code.Sound.closeCancels (c := ?_) ?_) ?_ <;> (first | assumption | skip); done)
+        | (refine absurd (Stream.Code.Sound.closeWaits (c := ?_) ?_) ?_ <;> (first | assumption | skip); done)
+        | (refine absurd (Stream.Code.Sound.ctxPlain (c := ?_) ?_) ?_ <;> (first | assumption | skip); done)))
       all_goals (simp only [Option.some.injEq] at $h:ident; subst $h:ident)
       all_goals ($t)))
 
